@@ -114,6 +114,10 @@ def run_attrs(pid, tier):
         eq("placeholder slot doc", fld(it["VVftable"], "_vfunc_2")["doc"], [])
         eq("VVftable doc", it["VVftable"]["doc"], [])
         if h["vis"] == "pub":
+            dh0 = meth(it["D"], "h")
+            eq("inherited wrapper D::h visibility (a public function of the base stays public whatever the base field is)", dh0 and dh0["vis"], "pub")
+        eq("base field D::t visibility", fld(it["D"], "t")["vis"], defs["D"]["fields"][0]["vis"])
+        if h["vis"] == "pub":
             dh = meth(it["D"], "h")
             eq("inherited wrapper D::h doc", dh and dh["doc"], h["doc"])
         dvf = meth(it["DV"], "vf")
